@@ -31,7 +31,7 @@ Example li_neutral_hypotheses_satisfiable :
   lens = [2; 3; 3; 1; 3; 2; 1; 2] /\
   oc = map hardcoded_class text /\
   resolve_neutral U32 hardcoded_ds cps sq lv oc pc = Ok [R; R; R; L; R; R; R; R] /\
-  identify_bracket_pairs U8 hardcoded_ds text (useq lens sq) (expand lens pc)
+  identify_bracket_pairs U8 hardcoded_ds text (useq lens sq) (expand lens oc) (expand lens pc)
     = Ok [{| bp_start := 5; bp_end := 9; bp_start_run := 0; bp_end_run := 1 |}] /\
   resolve_neutral U8 hardcoded_ds text (useq lens sq) (expand lens lv) (expand lens oc) (expand lens pc)
     = Ok [R; R; R; R; R; R; R; R; L; R; R; R; R; R; R; R; R] /\
